@@ -986,3 +986,70 @@ def conversion_is_a_read(chk, rule):
                      f"`{text}` writes through {sorted(map(str, vals))}: a registered reference state / offset or the caller's object is modified by a conversion",
                      loc(f, node))
     chk.floor(rule, 8)
+
+
+# ---- package __init__ modules (INIT) ------------------------------------------------------------------------------------
+# Code in a package `__init__` runs at import time, before the user has configured anything, whoever uses the names it binds.
+# Wave l: `J2000 = Date(2000, 1, 1, 12, scale="TT")` added to beyond/dates/__init__.py -- the first Date instantiates the EOP
+# database (and caches the failure) before `config.update(...)`: every later date gets zero corrections, silently.
+
+def init_statements(repo, rel):
+    m = repo.modules.get(rel)
+    if m is None:
+        return None
+    tree = ast.parse(m.source)
+    out = []
+    for st in tree.body:
+        if isinstance(st, ast.Expr) and isinstance(st.value, ast.Constant):
+            continue            # docstring
+        out.append(unparse(st))
+    return out
+
+
+def init_files_of(files):
+    out = {"beyond/__init__.py"}
+    for rel in files:
+        parts = rel.split("/")[:-1]
+        for i in range(1, len(parts) + 1):
+            out.add("/".join(parts[:i]) + "/__init__.py")
+    return sorted(out)
+
+
+def init_rule(chk):
+    """INIT: the module-level statements of the package `__init__` files on the path of the anchored files are the
+    reference ones (bvstatic/data/inits.json).  Excused: one more name imported from a module the same `__init__` already
+    imports (no new import-time code runs)."""
+    import json as _json
+    from pathlib import Path as _Path
+    ref = _json.loads((_Path(__file__).resolve().parent.parent / "data" / "inits.json").read_text())
+    files = init_files_of(anchored_files().get(chk.prop, []))
+    chk.rule("INIT", "import-time code of the package __init__ modules on the path of the anchored files is the reference code")
+    for rel in files:
+        if rel not in ref:
+            continue
+        cur = init_statements(chk.repo, rel)
+        if cur is None:
+            chk.inst("INIT", rel, False, "package __init__ removed", rel)
+            continue
+        want = ref[rel]
+        imported = set()
+        for s in want:
+            t = ast.parse(s).body[0]
+            if isinstance(t, ast.ImportFrom):
+                imported.add((t.level, t.module))
+        added, removed = [], [s for s in want if s not in cur]
+        for s in cur:
+            if s in want:
+                continue
+            t = ast.parse(s).body[0]
+            if isinstance(t, ast.ImportFrom) and (t.level, t.module) in imported and not any(a.name == "*" for a in t.names):
+                # the same import with more (or fewer) names: modules already loaded, only bindings change
+                old = [w for w in want if isinstance(ast.parse(w).body[0], ast.ImportFrom) and (ast.parse(w).body[0].level, ast.parse(w).body[0].module) == (t.level, t.module)]
+                old_names = {(a.name, a.asname) for w in old for a in ast.parse(w).body[0].names}
+                if old_names <= {(a.name, a.asname) for a in t.names}:
+                    removed = [r for r in removed if r not in old]
+                    continue
+            added.append(s)
+        ok = not added and not removed
+        chk.inst("INIT", rel, ok, f"{len(want)} statements, as in the reference tree" if ok else
+                 "import-time code changed: " + "; ".join([f"added `{a[:70]}`" for a in added] + [f"removed `{r[:70]}`" for r in removed]), rel)
